@@ -681,7 +681,7 @@ EXPECT.update({
     'destroy-race-crash': 'destroying an interpreter is safe under every interleaving with the timer thread',
 })
 
-RR_REQUIRE_DESTROY_HOOK = False    # set to True once interp.destroy.done is in /repo: its absence is then an error, not a skip
+RR_REQUIRE_DESTROY_HOOK = True     # set to True once interp.destroy.done is in /repo: its absence is then an error, not a skip
 
 
 def dr_model_sched(locks, hold):
